@@ -447,7 +447,14 @@ async def run_session(sc):
         async with sse_client(SSEParameters(url=BASE, timeout=sc["timeout"], **(sc.get("params") or {}))) as (r, wr):
             out["enter"] = ["live", now()]
             out["wr"], out["rd"] = wr, r
-            out["collector"] = asyncio.create_task(collect(r))
+            if sc.get("collector_delay"):
+                # the application does not read for a while (it is busy): messages pile up in the read stream
+                async def late_collect():
+                    await asyncio.sleep(sc["collector_delay"])
+                    await collect(r)
+                out["collector"] = asyncio.create_task(late_collect())
+            else:
+                out["collector"] = asyncio.create_task(collect(r))
             for a in sc["actions"]:
                 if a[0] == "send":
                     await wr.send(a[1])
@@ -988,6 +995,46 @@ def check_requests(ctx, model, cfg):
             ctx.spec_violation("sse-stream-delivery-not-as-due:" + c["label"], case, f"due from the stream {want} delivered {got}")
 
 
+def check_backed_up_reader(ctx, model, only=None):
+    """The application is not reading: N server notifications are waiting in the read stream when a request is sent, 202-
+    acknowledged and then times out; its answer arrives LATE, followed by one more notification; then the application drains.
+    Exactly one terminal message for the request, every notification once and in order - also when the read stream was full
+    at the moment the transport had to put its synthesised timeout error there."""
+    T = 2.0
+    plans = [only] if only else [(n, late) for n in (0, 50, 99, 100) for late in (0.05, 0.3, 1.0)]
+    items = []
+    for n, late in plans:
+        notifs = [notif(9000 + i) for i in range(n)]
+        ans, after = res("r1", 8999), notif(9900)
+        stream = [[T_EP, EP_STD]] + ([[0.1, "".join(enc_event(x) for x in notifs).encode()]] if notifs else [])
+        sc = {"timeout": T, "collector_delay": 0.3 + T + late + 1.0,
+              "actions": [["sleep", 0.2], ["send", req_msg("r1")], ["sleep", T + late + 3.0]],
+              "script": {"connect": ["status", 0.02, 200], "stream": stream, "end": None,
+                         "posts": [{"delay": 0.1, "outcome": ["status", 202, b""],
+                                    "events": [[0.1 + T + late, (enc_event(ans) + enc_event(after)).encode()]]}]}}
+        items.append((n, late, notifs + [after], session(sc)))
+    reqs = []
+    for n, late, unrelated, o in items:
+        impl = [tuple(x[1]) for x in o["delivered"]]
+        toks = {absmsg(u)[2] for u in unrelated}
+        reqs.append(call(11, sx_id("r1"), sx_list([sx_msg(x) for x in impl])))
+        reqs.append(call(12, sx_list([sx_msg(absmsg(u)) for u in unrelated]), sx_list([sx_msg(x) for x in impl if x[2] in toks])))
+    res_ = model.run(reqs)
+    for k, (n, late, unrelated, o) in enumerate(items):
+        case = {"kind": "backed-up-reader", "unread_notifications": n, "answer_late_by_s": late}
+        ctx.case(case, nontrivial=True)
+        ctx.count("backed-up-reader:" + ("full" if n >= 100 else "room"))
+        impl = [tuple(x[1]) for x in o["delivered"]]
+        nterm = sum(1 for (i, kd, _t) in impl if kd[0] in (0, 1) and i == "r1")
+        ctx.spec_total += 2
+        if not res_[2 * k]:
+            ctx.spec_violation("sse-request-no-terminal:backed-up-reader" if nterm == 0 else "sse-request-multiple-terminals:backed-up-reader",
+                               case, f"request 'r1': {nterm} terminal message(s) among {len(impl)} delivered")
+        if not res_[2 * k + 1]:
+            ctx.spec_violation("sse-unrelated-traffic-lost-or-reordered:backed-up-reader", case,
+                               f"{len(unrelated)} notifications sent, {sum(1 for x in impl if x[1][0] == 3)} delivered")
+
+
 # ---- exit paths ---------------------------------------------------------------
 def exit_cases(ctx):
     T = 2.0
@@ -1138,6 +1185,7 @@ def explore(ctx, model, cfg):
     check_parser(ctx, model, cfg)
     check_establishment(ctx, model, cfg)
     check_requests(ctx, model, cfg)
+    check_backed_up_reader(ctx, model)
     check_exits(ctx, model, cfg)
 
 
@@ -1195,6 +1243,11 @@ def replay(ctx, data):
     case = _unjson(data.get("case", {}))
     kind = case.get("kind")
     print("replaying", kind, case.get("label"), "class", data.get("class"))
+    if kind == "backed-up-reader":
+        check_backed_up_reader(ctx, model, only=(case["unread_notifications"], case["answer_late_by_s"]))
+        for f in ctx.spec_fail:
+            print("REPRODUCED", f["class"], f["detail"][:200])
+        return 1 if ctx.spec_fail else 0
     if kind == "parser":
         text = case["text"].encode("utf-8")
         cuts = case.get("cuts") or [len(text)]
